@@ -73,7 +73,7 @@ class FaultyFile:
         h = self.h
         h.nwrites += 1
         h.log("write", h.nwrites, len(s))
-        plan = h.plan
+        plan = h.plan if h.active else None
         if h.buffered:
             self.buf.append(s)
             return len(s)
@@ -101,7 +101,8 @@ class FaultyFile:
         self.closed = True
         h = self.h
         h.log("close")
-        plan = h.plan
+        plan = h.plan if h.active else None
+        h.counts.append(h.nwrites)
         if h.buffered:
             data = "".join(self.buf)
             if plan and plan[0] == "close":
@@ -132,8 +133,11 @@ class Hook:
         self.buffered = False
         self.nwrites = 0
         self.nopens = 0
+        self.active = True
+        self.counts = []  # write calls per output file, in the order the files were closed
         self.quiet = False
         self.exc_mode = "oserror"
+        self.plan_file = None  # the plan applies to the n-th output file opened by one call (None: to every one)
 
     def log(self, *a):
         if not self.quiet:
@@ -149,7 +153,8 @@ class Hook:
         self.nopens += 1
         self.nwrites = 0
         self.log("open", os.path.basename(p), mode)
-        if self.plan and self.plan[0] == 0:
+        self.active = self.plan_file is None or self.nopens == self.plan_file
+        if self.plan and self.plan[0] == 0 and self.active:
             self.fired("open-fail")
             raise make_fault(self.exc_mode, errno.EACCES, "Permission denied")
         return FaultyFile(real_open(file, mode, *args, **kwargs), self)
@@ -181,9 +186,115 @@ def read(path):
         return _IDS.sub("N", f.read())
 
 
+def run_cli(ctx, t, which):
+    """The same property through the real command: `textx generate <grammar files> --target T -o DIR [--overwrite]`
+    (click's CliRunner, in-process).  One command may generate several files: a failure inside file i must leave the
+    files before it complete, file i absent or complete, and the later ones untouched."""
+    from click.testing import CliRunner
+    from textx.cli import textx as textx_cli
+
+    target = t.pick(["dot", "PlantUML"], "cli-target")
+    ext = {"dot": "dot", "PlantUML": "pu"}[target]
+    nfiles = 1 + t.draw(2, "cli-nfiles")
+    preexisting = t.chance(1, 3, "old-files-and-overwrite")
+    buffered = t.chance(1, 2, "buffered-io")
+    outdir = tempfile.mkdtemp(prefix="tvsim-w6-")
+    hook = Hook(ctx, outdir)
+    hook.buffered = buffered
+    hook.exc_mode = t.pick(["oserror", "oserror", "app-error", "keyboard-interrupt", "system-exit"], "failure-is")
+    FILE_HOOK[0] = hook
+    from ..seams import real_open
+    try:
+        files, outs = [], []
+        for i in range(nfiles):
+            g, _ = make_grammar(t)
+            SIMFS.files[f"/sim/w6/cli{i}.tx"] = g
+            files.append(f"/sim/w6/cli{i}.tx")
+            outs.append(os.path.join(outdir, f"cli{i}.{ext}"))
+        ctx.sample = {"generator": "cli/" + target, "files": nfiles, "old_file": preexisting,
+                      "io": "buffered" if buffered else "unbuffered", "failure_is": hook.exc_mode}
+
+        def call(overwrite):
+            hook.nopens = 0
+            hook.counts = []
+            args = ["generate"] + files + ["--target", target, "-o", outdir] + (["--overwrite"] if overwrite else [])
+            r = CliRunner().invoke(textx_cli, args)
+            return r.exit_code == 0 and (r.exception is None or isinstance(r.exception, SystemExit))
+
+        if not call(False) or hook.nopens != nfiles or not all(os.path.exists(o) for o in outs):
+            ctx.violate("C31", "census", "cli/" + target, f"fault-free `textx generate`: opens={hook.nopens}")
+            return
+        counts = list(hook.counts)
+        refs = [read(o) for o in outs]
+        for o in outs:
+            os.remove(o)
+        hook.quiet = True
+        npoints = 0
+        for fi in range(1, nfiles + 1):
+            n = counts[fi - 1]
+            if buffered:
+                points = [(0, "open-fail")] + [("close", k) for k in ("flush-fail-nothing", "flush-fail-half", "flush-fail-all-but-one")]
+            else:
+                ks = list(range(1, n + 1))
+                if len(ks) > 12:
+                    ks = ks[:3] + ks[3:-3:max(1, (len(ks) - 6) // 6)] + ks[-3:]
+                points = [(0, "open-fail")] + [(k, kind) for k in ks for kind in ("write-fail", "short-write")] + [("close", "close-fail")]
+            for plan in points:
+                for o in outs:
+                    if os.path.exists(o):
+                        os.remove(o)
+                    if preexisting:
+                        with real_open(o, "w", encoding="utf-8") as f:
+                            f.write(OLD)
+                hook.plan, hook.plan_file = plan, fi
+                ok = call(preexisting)
+                hook.plan, hook.plan_file = None, None
+                npoints += 1
+                ctx.stats["crash_points"] += 1
+                cls = f"cli/{target}/{plan[1]}/file{fi}of{nfiles}" + ("/old-file" if preexisting else "") + \
+                    ("" if hook.exc_mode == "oserror" else "/" + hook.exc_mode)
+                ctx.ev("cli-point", fi, plan[0], plan[1], ok)
+                if ok:
+                    ctx.violate("C31", "fault-swallowed", cls, f"injected {plan} in file {fi} did not make the command fail")
+                    continue
+                for i, o in enumerate(outs, 1):
+                    if not os.path.exists(o):
+                        if i < fi:
+                            ctx.violate("C31", "earlier-file-lost", cls, f"file {i} was generated before the failure in file {fi} and is gone")
+                        continue
+                    content = read(o)
+                    okset = {refs[i - 1]} if i < fi else ({refs[i - 1], OLD} if i == fi else {OLD})
+                    if not preexisting:
+                        okset.discard(OLD)
+                    if content not in okset:
+                        ctx.violate("C31", "partial-file-left", cls,
+                                    f"after {plan[1]} at operation {plan[0]} of file {fi}: output {i} holds {len(content)} "
+                                    f"of {len(refs[i - 1])} bytes")
+                if not call(False):
+                    ctx.violate("C31", "rerun-fails", cls, "fault-free rerun of the command failed")
+                    continue
+                for i, o in enumerate(outs, 1):
+                    if not os.path.exists(o):
+                        ctx.violate("C31", "rerun-completes", cls, f"fault-free rerun left no output {i}")
+                    elif read(o) not in ({refs[i - 1], OLD} if preexisting else {refs[i - 1]}):
+                        ctx.violate("C31", "rerun-skips-truncated-file", cls,
+                                    f"a later run without --overwrite kept a truncated output {i}")
+        ctx.nontrivial = True
+        ctx.probe("through-the-textx-command")
+        if nfiles > 1:
+            ctx.probe("command-generating-several-files")
+        ctx.stats["steps"] += npoints
+        ctx.sig = ["cli", target, nfiles, counts, [len(r) for r in refs], preexisting, buffered, hook.exc_mode]
+    finally:
+        FILE_HOOK[0] = None
+        shutil.rmtree(outdir, ignore_errors=True)
+
+
 def run(ctx):
     t = ctx.tape
-    which = t.pick(["mm-dot", "model-dot", "mm-pu", "model-dot-multi", "custom-gen-file"], "generator")
+    which = t.pick(["mm-dot", "model-dot", "mm-pu", "model-dot-multi", "custom-gen-file", "cli"], "generator")
+    if which == "cli":
+        return run_cli(ctx, t, which)
     gtext, nrules = make_grammar(t)
     preexisting = t.chance(1, 3, "old-file-and-overwrite")
     buffered = t.chance(1, 2, "buffered-io")
@@ -343,7 +454,8 @@ def _vals(mm, i):
 
 
 RULES = {
-    "C31": "one run = one case (one of the 3 built-in generators obtained through generator_for_language_target, a "
+    "C31": "one run = one case (one of the 3 built-in generators obtained through generator_for_language_target, a user's "
+           "registered generator writing through gen_file(), or the real `textx generate` command over 1-2 grammar files; a "
            "generated grammar of 1-5 rules / a model of 1-4 objects, with or without a pre-existing complete file + "
            "overwrite, unbuffered or buffered output); ALL operations of the output file object are failed in turn: "
            "open, every write call (fail before writing / short write), or - buffered - the final flush torn at 0, "
